@@ -62,6 +62,14 @@ def expand_is_guarded(prog):
     f = prog.fn(EXP)
     writes = [bb for bb, i, s in f.all_stmts() if s["k"] == "assign" and any(
         isinstance(e, dict) and e.get("n") in ("end_offset", "end_line", "end_col") for e in s["place"].get("p", []))]
+    # the widened span may also be built as a new value: `Span { end_offset: last.end_offset, .. , ..span }`
+    SPAN = "minijinja::compiler::tokens::Span"
+    for bb, i, st in f.all_stmts():
+        rv = st.get("rv", {})
+        if st["k"] == "assign" and rv.get("k") == "agg" and rv.get("adt") == SPAN:
+            for fname, o in zip(rv.get("fields", []), rv["ops"]):
+                if fname in ("end_offset", "end_line", "end_col") and any("last_span" in x.proj for x in flow.origins(f, o)):
+                    writes.append(bb)
     if not writes:
         return False
     for bb in writes:
